@@ -2,6 +2,7 @@ package main
 
 import (
 	"fmt"
+	"math/rand"
 
 	"github.com/dgryski/go-metro"
 	"github.com/kwertop/gostatix"
@@ -41,8 +42,45 @@ func (h cmsRedis) UpdateString(d string, c uint64) error { return h.s.UpdateStri
 func (h cmsRedis) Count(d []byte) (uint64, error)        { return h.s.Count(d) }
 func (h cmsRedis) CountString(d string) (uint64, error)  { return h.s.CountString(d) }
 func (h cmsRedis) Export() ([]byte, error)               { return h.s.Export() }
-func (h cmsRedis) Merge(o cmsHandle) error               { return h.s.Merge(o.(cmsRedis).s) }
-func (h cmsRedis) Equals(o cmsHandle) (bool, error)      { return h.s.Equals(o.(cmsRedis).s) }
+func (h cmsRedis) Merge(o cmsHandle) error               { return h.s.Merge(cmsUnder(o)) }
+func (h cmsRedis) Equals(o cmsHandle) (bool, error)      { return h.s.Equals(cmsUnder(o)) }
+
+// cmsMulti routes every operation of a Redis sketch through a randomly chosen handle: the creating
+// one or one re-attached from the metadata key (handle-local state must not matter: C09)
+type cmsMulti struct {
+	hs  []cmsRedis
+	rng *rand.Rand
+}
+
+func (m *cmsMulti) pick() cmsRedis {
+	if len(m.hs) < 3 && m.rng.Intn(6) == 0 {
+		if s, err := gostatix.NewCountMinSketchRedisFromKey(m.hs[0].s.MetadataKey()); err == nil && s != nil {
+			m.hs = append(m.hs, cmsRedis{s})
+		}
+	}
+	return m.hs[m.rng.Intn(len(m.hs))]
+}
+func (m *cmsMulti) Update(d []byte, c uint64) error       { return m.pick().Update(d, c) }
+func (m *cmsMulti) UpdateOnce(d []byte)                   { m.pick().UpdateOnce(d) }
+func (m *cmsMulti) UpdateString(d string, c uint64) error { return m.pick().UpdateString(d, c) }
+func (m *cmsMulti) Count(d []byte) (uint64, error)        { return m.pick().Count(d) }
+func (m *cmsMulti) CountString(d string) (uint64, error)  { return m.pick().CountString(d) }
+func (m *cmsMulti) Export() ([]byte, error)               { return m.hs[0].Export() }
+func (m *cmsMulti) Merge(o cmsHandle) error               { return m.pick().s.Merge(cmsUnder(o)) }
+func (m *cmsMulti) Equals(o cmsHandle) (bool, error)      { return m.pick().s.Equals(cmsUnder(o)) }
+
+var multiRng = rand.New(rand.NewSource(12345))
+
+// cmsUnder: the library handle behind a harness handle (a random one for a multi-handle)
+func cmsUnder(o cmsHandle) *gostatix.CountMinSketchRedis {
+	switch x := o.(type) {
+	case cmsRedis:
+		return x.s
+	case *cmsMulti:
+		return x.pick().s
+	}
+	return nil
+}
 
 func newCMS(rows, cols uint, redis bool) (cmsHandle, error) {
 	if redis {
@@ -50,7 +88,7 @@ func newCMS(rows, cols uint, redis bool) (cmsHandle, error) {
 		if err != nil {
 			return nil, err
 		}
-		return cmsRedis{s}, nil
+		return &cmsMulti{hs: []cmsRedis{{s}}, rng: multiRng}, nil
 	}
 	s, err := gostatix.NewCountMinSketch(rows, cols)
 	if err != nil {
@@ -115,7 +153,7 @@ func suiteCMS(c *Ctx) {
 					c.fail([]string{"C03"}, "cms-constructor", err.Error(), nil)
 					continue
 				}
-				h = cmsRedis{s}
+				h = &cmsMulti{hs: []cmsRedis{{s}}, rng: multiRng}
 				rows, cols = s.GetRows(), s.GetColumns()
 			} else {
 				s, _ := gostatix.NewCountMinSketchFromEstimates(er, dl)
@@ -136,6 +174,7 @@ func suiteCMS(c *Ctx) {
 		}
 	}
 	cmsMismatch(c)
+	cmsWideMerge(c)
 	cmsWideRedisProbe(c)
 }
 
@@ -375,6 +414,15 @@ func cmsMergeCase(c *Ctx, rows, cols uint, redis bool) {
 		cmsFeed(S, pool, ha)
 		if E.Merge(A2) == nil && T.Merge(E) == nil {
 			for jj, e := range pool {
+				// the intermediate itself (filled only by a merge) must answer like its source
+				ve, _ := E.Count(e)
+				va, _ := A2.Count(e)
+				if ve != va {
+					c.fail([]string{"C12", "C03", "C08"}, "cms-merge-chain", fmt.Sprintf("%s: a sketch filled only by Merge counts element %d as %d, its source %d", cfg, jj, ve, va), replay)
+					return
+				}
+			}
+			for jj, e := range pool {
 				v1, _ := T.Count(e)
 				v2, _ := S.Count(e)
 				if v1 != v2 {
@@ -441,5 +489,45 @@ func cmsWideRedisProbe(c *Ctx) {
 			map[string]interface{}{"constructor": "NewCountMinSketchRedisFromEstimates(0.0001, 0.9)", "op": "Update(\"x\",1); Count(\"x\")"})
 	} else {
 		c.note("wide redis sketch works (finding D24 no longer reproduces)")
+	}
+}
+
+// cmsWideMerge: sketches wider than 4096 columns (but below the unpack limit of finding D24)
+func cmsWideMerge(c *Ctx) {
+	for _, redis := range []bool{false, true} {
+		cols := uint(4500 + c.rng.Intn(500))
+		A, e1 := newCMS(2, cols, redis)
+		B, e2 := newCMS(2, cols, redis)
+		U, e3 := newCMS(2, cols, redis)
+		if e1 != nil || e2 != nil || e3 != nil {
+			continue
+		}
+		c.rep.Cases++
+		cfg := fmt.Sprintf("cms-wide-merge(rows=2,cols=%d,redis=%v)", cols, redis)
+		var keys [][]byte
+		for i := 0; i < 60; i++ {
+			keys = append(keys, []byte(fmt.Sprintf("wide-%d-%d", c.seed, i)))
+		}
+		for i, k := range keys {
+			if i%2 == 0 {
+				A.Update(k, uint64(1+i))
+			} else {
+				B.Update(k, uint64(1+i))
+			}
+			U.Update(k, uint64(1+i))
+		}
+		if err := A.Merge(B); err != nil {
+			c.fail([]string{"C12", "C08"}, "cms-merge-fails", cfg+": "+err.Error(), cfg)
+			continue
+		}
+		for i, k := range keys {
+			v1, _ := A.Count(k)
+			v2, _ := U.Count(k)
+			if v1 != v2 {
+				c.fail([]string{"C12", "C08"}, "cms-merge-not-union", fmt.Sprintf("%s: merged sketch counts key %d as %d, single sketch %d", cfg, i, v1, v2), cfg)
+				break
+			}
+		}
+		c.branch("wide-merge")
 	}
 }
